@@ -21,7 +21,7 @@ use std::sync::{Arc, Mutex};
 // child: workload with trace
 // ---------------------------------------------------------------------------------------------
 
-struct Tracer {
+pub struct Tracer {
     seq: AtomicU64,
     log: Mutex<Vec<String>>,
     data: Mutex<Vec<u8>>,
@@ -37,6 +37,26 @@ struct FaultPlan {
 }
 
 impl Tracer {
+    pub fn new() -> Arc<Tracer> {
+        Arc::new(Tracer {
+            seq: AtomicU64::new(0),
+            log: Mutex::new(Vec::new()),
+            data: Mutex::new(Vec::new()),
+            faults: Mutex::new(FaultPlan::default()),
+            devcount: AtomicU64::new(0),
+        })
+    }
+    /// write `<path>.trace` / `<path>.data`
+    pub fn save(&self, path: &str, blocks: u64, ttl: bool) {
+        let mut log = self.log.lock().unwrap().clone();
+        log.sort_by_key(|l| l.split(' ').next().unwrap().parse::<u64>().unwrap_or(0));
+        let mut f = std::fs::File::create(format!("{path}.trace")).unwrap();
+        writeln!(f, "BLOCKS {blocks} TTL {}", ttl as u8).unwrap();
+        for l in &log {
+            writeln!(f, "{l}").unwrap();
+        }
+        std::fs::write(format!("{path}.data"), &*self.data.lock().unwrap()).unwrap();
+    }
     fn next(&self) -> u64 {
         self.seq.fetch_add(1, Ordering::SeqCst)
     }
@@ -159,6 +179,7 @@ pub fn tracegen(opts: &Opts) -> i32 {
     };
     let mut store = Some(store);
     let nkeys = rng.range(2, 7);
+    let mut ecount = 0u64;
     let heal_at = opts.u64("heal_at", u64::MAX);
     for i in 0..nops {
         if i == heal_at {
@@ -172,11 +193,31 @@ pub fn tracegen(opts: &Opts) -> i32 {
         let st = store.as_ref().unwrap();
         let k = format!("key{}", rng.below(nkeys)).into_bytes();
         let kind = rng.below(100);
-        if kind < 55 {
-            let len = match rng.below(8) {
+        if ttl && rng.chance(1, 5) {
+            // a key family written with small explicit timestamps: with a TTL the generation is
+            // expired on arrival (expiry in 1970), without it never expires
+            ecount += 1;
+            let ek = format!("ek{}", rng.below(2)).into_bytes();
+            let ts = 1000 * ecount;
+            let expired = rng.chance(1, 2);
+            let len = if rng.chance(1, 3) { rng.range(4100, 4300) } else { rng.range(1, 300) } as usize;
+            let v = value_for(seed.wrapping_mul(77_777).wrapping_add(i), len);
+            let inv = tracer.next();
+            let r = if expired { st.insert_with_ttl_and_timestamp(&ek, &v, 1, Some(ts)) } else { st.insert_with_timestamp(&ek, &v, Some(ts)) };
+            let ret = tracer.next();
+            tracer.note(format!(
+                "{inv} OP put key={} vh={:016x} len={len} ret={ret} res={} ts={ts} expired={}",
+                hex(&ek),
+                fnv1a(&v),
+                r.as_ref().map(|_| "ok".to_string()).unwrap_or_else(|e| err_name(e)),
+                expired as u8
+            ));
+        } else if kind < 55 {
+            let len = match rng.below(9) {
                 0 => rng.range(4000, 4200),
                 1 => rng.range(8100, 9000),
                 2 => 1,
+                3 | 4 => rng.range(600, 3900),
                 _ => rng.range(1, 400),
             } as usize;
             let tag = seed.wrapping_mul(100_000).wrapping_add(i);
@@ -291,7 +332,7 @@ fn plant_hostile(v: &mut [u8], victim_key: &[u8], r: u64) {
 pub enum Ev {
     W { seq: u64, off: u64, len: usize, at: usize, applied: bool },
     F { seq: u64, ok: bool },
-    Op { inv: u64, ret: u64, del: bool, key: String, vh: String, ok: bool, ts: u64, res: String },
+    Op { inv: u64, ret: u64, del: bool, key: String, vh: String, ok: bool, ts: u64, res: String, expired: bool },
     Flush { inv: u64, ret: u64, ok: bool },
     Close { inv: u64, ret: u64 },
     Get { inv: u64, key: String, res: String },
@@ -303,6 +344,8 @@ pub struct Trace {
     pub ttl: bool,
     pub evs: Vec<Ev>,
     pub data: Vec<u8>,
+    /// the device image the trace starts from (None = all zero)
+    pub base: Option<Vec<u8>>,
 }
 
 fn field<'a>(toks: &'a [&'a str], k: &str) -> &'a str {
@@ -338,6 +381,7 @@ pub fn load_trace(path: &str) -> Option<Trace> {
                 ok: field(&toks, "res=") == "ok",
                 ts: field(&toks, "ts=").parse().unwrap_or(0),
                 res: field(&toks, "res=").to_string(),
+                expired: field(&toks, "expired=") == "1",
             }),
             "FLUSH" => evs.push(Ev::Flush { inv: seq, ret: field(&toks, "ret=").parse().ok()?, ok: field(&toks, "res=") == "ok" }),
             "CLOSE" => evs.push(Ev::Close { inv: seq, ret: field(&toks, "ret=").parse().ok()? }),
@@ -346,7 +390,7 @@ pub fn load_trace(path: &str) -> Option<Trace> {
             _ => {}
         }
     }
-    Some(Trace { blocks, ttl, evs, data })
+    Some(Trace { blocks, ttl, evs, data, base: None })
 }
 
 /// per key: the accepted states in order; state = (invoke seq, return seq, Some((ts, vh)) | None)
@@ -355,9 +399,10 @@ type States = BTreeMap<String, Vec<(u64, u64, Option<(u64, String)>)>>;
 pub fn key_states(t: &Trace) -> States {
     let mut m: States = BTreeMap::new();
     for e in &t.evs {
-        if let Ev::Op { inv, ret, del, key, vh, ok, ts, .. } = e {
+        if let Ev::Op { inv, ret, del, key, vh, ok, ts, expired, .. } = e {
             if *ok {
-                m.entry(key.clone()).or_default().push((*inv, *ret, if *del { None } else { Some((*ts, vh.clone())) }));
+                let vh = if *expired && t.ttl { format!("{vh}!expired") } else { vh.clone() };
+                m.entry(key.clone()).or_default().push((*inv, *ret, if *del { None } else { Some((*ts, vh)) }));
             }
         }
     }
@@ -405,6 +450,10 @@ pub fn allowed(states: &States, acks: &[(u64, u64)], key: &str, cut: u64, found:
         if st == found {
             ok = true;
         }
+        // a generation that had expired on arrival is dropped by a TTL-aware recovery: the key is absent
+        if found.is_none() && st.as_ref().map_or(false, |(_, vh)| vh.ends_with("!expired")) {
+            ok = true;
+        }
     }
     let _ = lo;
     if ok {
@@ -424,7 +473,10 @@ pub fn allowed(states: &States, acks: &[(u64, u64)], key: &str, cut: u64, found:
 /// the device image for: all writes with seq < durable_upto applied, plus the listed pending writes
 /// (index into evs, with an optional set of 512-byte sectors that made it: None = all)
 pub fn build_image(t: &Trace, durable_upto: u64, extra: &[(usize, Option<Vec<bool>>)]) -> Vec<u8> {
-    let mut img = vec![0u8; (t.blocks * 4096) as usize];
+    let mut img = match &t.base {
+        Some(b) => b.clone(),
+        None => vec![0u8; (t.blocks * 4096) as usize],
+    };
     let mut apply = |off: u64, at: usize, len: usize, mask: &Option<Vec<bool>>| {
         let src = &t.data[at..at + len];
         let off = off as usize;
@@ -538,15 +590,15 @@ pub fn stale_marker_span(img: &[u8]) -> Option<(usize, u64, usize)> {
     None
 }
 
-struct Plan {
-    cut: u64,
-    durable_upto: u64,
-    extra: Vec<(usize, Option<Vec<bool>>)>,
-    label: String,
+pub struct Plan {
+    pub cut: u64,
+    pub durable_upto: u64,
+    pub extra: Vec<(usize, Option<Vec<bool>>)>,
+    pub label: String,
 }
 
 /// crash points x subsets x tearing for one trace
-fn plans(t: &Trace, rng: &mut Rng, budget: usize) -> Vec<Plan> {
+pub fn plans(t: &Trace, rng: &mut Rng, budget: usize) -> Vec<Plan> {
     // device events in order
     let dev: Vec<(usize, &Ev)> = t.evs.iter().enumerate().filter(|(_, e)| matches!(e, Ev::W { .. } | Ev::F { .. })).collect();
     let mut out = Vec::new();
@@ -597,6 +649,19 @@ fn plans(t: &Trace, rng: &mut Rng, budget: usize) -> Vec<Plan> {
             // reordering: only the last pending write made it
             out.push(Plan { cut: *cut, durable_upto: *upto, extra: vec![(*pend.last().unwrap(), None)], label: format!("cut{cut}-lastonly") });
         }
+        // the classic: every other pending write applied, one torn after its first 512-byte sector
+        for victim in pend.iter().take(6) {
+            if let Ev::W { len, .. } = &t.evs[*victim] {
+                let sectors = len / 512;
+                if sectors > 1 {
+                    let mask: Vec<bool> = (0..sectors).map(|s| s == 0).collect();
+                    let mut extra: Vec<(usize, Option<Vec<bool>>)> = pend.iter().filter(|i| *i != victim).map(|i| (*i, None)).collect();
+                    extra.push((*victim, Some(mask)));
+                    extra.sort_by_key(|(i, _)| *i);
+                    out.push(Plan { cut: *cut, durable_upto: *upto, extra, label: format!("cut{cut}-torn1") });
+                }
+            }
+        }
         // tearing of one pending write at sector granularity (others: random subset)
         for _ in 0..2 {
             let victim = pend[rng.below(k as u64) as usize];
@@ -632,6 +697,7 @@ pub fn run(opts: &Opts) -> i32 {
     let per = opts.u64("n", if opts.thorough() { 12 } else { 1 });
     let budget = opts.u64("points", if opts.thorough() { 60 } else { 14 }) as usize;
     let hostile = opts.u64("hostile", 0);
+    let ttl_opt = opts.get("ttl").and_then(|v| v.parse::<u64>().ok());
     let keep = format!("{dir}/images");
     std::fs::create_dir_all(&keep).unwrap();
     let mut handles = Vec::new();
@@ -654,6 +720,7 @@ pub fn run(opts: &Opts) -> i32 {
                         format!("ops={}", rng.range(15, 60)),
                         format!("sync={sync}"),
                         format!("hostile={hostile}"),
+                        format!("ttl={}", ttl_opt.unwrap_or_else(|| rng.below(2))),
                         format!("close={}", rng.below(2)),
                     ],
                     90,
@@ -703,6 +770,124 @@ pub fn run(opts: &Opts) -> i32 {
         nt += k;
     }
     std::fs::write(format!("{dir}/stats.json"), format!("{{\"images_with_unsynced_writes_applied\": {nt}}}")).unwrap();
+    println!("cases={total}");
+    0
+}
+
+/// contents part of a probe line ("keys=..." without sectors: a repaired device may keep extents where they are)
+fn contents_of(line: &str) -> Option<String> {
+    let (n, found) = parse_open(line)?;
+    Some(format!("n={n} {:?}", found))
+}
+
+/// engine `recrash` (C04): crash inside recovery's own repair writes, nested.
+pub fn run_recrash(opts: &Opts) -> i32 {
+    let dir = opts.str("out", "/verif/.build/cases/recrash");
+    let seed = opts.u64("seed", 1);
+    let shards = opts.u64("shards", 16);
+    let per = opts.u64("n", if opts.thorough() { 10 } else { 1 });
+    let budget = opts.u64("points", if opts.thorough() { 40 } else { 10 }) as usize;
+    let keep = format!("{dir}/images");
+    std::fs::create_dir_all(&keep).unwrap();
+    let mut handles = Vec::new();
+    for sh in 0..shards {
+        let dir = dir.clone();
+        let keep = keep.clone();
+        handles.push(std::thread::spawn(move || {
+            let mut out = Out::new(&dir, &format!("s{sh}"));
+            let mut rng = Rng::new(seed.wrapping_mul(40_503).wrapping_add(sh));
+            let mut repaired = 0u64;
+            for w in 0..per {
+                let base = format!("{keep}/r{sh}_{w}.feox");
+                let ttl = rng.below(2);
+                let g = run_child(
+                    &[
+                        "tracegen".into(),
+                        format!("path={base}"),
+                        format!("seed={}", rng.next() % 1_000_000_007),
+                        format!("blocks={}", rng.pick(&[40u64, 64])),
+                        format!("ops={}", rng.range(20, 60)),
+                        format!("sync={}", rng.below(2)),
+                        format!("ttl={ttl}"),
+                        "close=0".into(),
+                    ],
+                    90,
+                );
+                if g.as_deref().map_or(true, |s| !s.starts_with("tracegen-done")) {
+                    out.emit3(&format!("note tracegen-failed {:?}", g), "note", "FAIL workload-child-failed-or-hung");
+                    continue;
+                }
+                let Some(t) = load_trace(&base) else { continue };
+                // first-level crash images whose recovery has something to repair are the interesting ones
+                let mut level1 = plans(&t, &mut rng, budget);
+                // prefer images cut while a journal bracket is open: shuffle deterministically
+                for i in 0..level1.len() {
+                    let j = rng.below(level1.len() as u64) as usize;
+                    level1.swap(i, j);
+                }
+                let mut done = 0;
+                for (pi, plan) in level1.into_iter().enumerate() {
+                    if done >= 4 {
+                        break;
+                    }
+                    let img1 = build_image(&t, plan.durable_upto, &plan.extra);
+                    let p1 = format!("{keep}/r{sh}_{w}_{pi}.img");
+                    std::fs::write(&p1, &img1).unwrap();
+                    // recovery 1, traced
+                    let work = format!("{p1}.rec");
+                    std::fs::copy(&p1, &work).unwrap();
+                    let r1 = run_child(
+                        &["probe".into(), format!("path={work}"), format!("ttl={ttl}"), "allow=0".into(), "noworkload=1".into(), format!("rectrace={work}")],
+                        30,
+                    )
+                    .unwrap_or_default();
+                    let line1 = r1.splitn(3, ' ').nth(2).unwrap_or("").to_string();
+                    let Some(c1) = contents_of(&line1) else {
+                        let _ = std::fs::remove_file(&p1);
+                        continue;
+                    };
+                    let Some(mut rt) = load_trace(&work) else { continue };
+                    rt.base = Some(img1.clone());
+                    let nwrites = rt.evs.iter().filter(|e| matches!(e, Ev::W { .. })).count();
+                    if nwrites == 0 {
+                        // recovery repaired nothing: reopening again must still give the same contents
+                        let (now, recsize, line2) = probe_image(&work, &format!("{work}.probe"), ttl == 1, false);
+                        let verdict = if contents_of(&line2).as_deref() == Some(&c1) { "ok".into() } else { format!("FAIL second-open-differs-from-first") };
+                        out.emit3(&format!("open {work} ro=0 allow=0 ttl={ttl} now={now} recsize={recsize} level=2-clean"), &line2, &verdict);
+                        continue;
+                    }
+                    repaired += 1;
+                    done += 1;
+                    // crash points inside recovery 1
+                    for (qi, q) in plans(&rt, &mut rng, 8).into_iter().enumerate() {
+                        let img2 = build_image(&rt, q.durable_upto, &q.extra);
+                        let p2 = format!("{keep}/r{sh}_{w}_{pi}_{qi}.img");
+                        std::fs::write(&p2, &img2).unwrap();
+                        let (now, recsize, line2) = probe_image(&p2, &format!("{p2}.probe"), ttl == 1, false);
+                        let verdict = match contents_of(&line2) {
+                            None => format!("FAIL crash-inside-recovery-does-not-reopen: {}", line2.split(' ').take(2).collect::<Vec<_>>().join("_")),
+                            Some(c2) if c2 == c1 => "ok".to_string(),
+                            Some(_) => "FAIL contents-after-restarted-recovery-differ-from-first-recovery".to_string(),
+                        };
+                        out.emit3(
+                            &format!("open {p2} ro=0 allow=0 ttl={ttl} now={now} recsize={recsize} level=2 plan={} inner={}", plan.label, q.label),
+                            &line2,
+                            &verdict,
+                        );
+                    }
+                }
+            }
+            (out.finish(), repaired)
+        }));
+    }
+    let mut total = 0;
+    let mut rep = 0;
+    for h in handles {
+        let (n, r) = h.join().unwrap();
+        total += n;
+        rep += r;
+    }
+    std::fs::write(format!("{dir}/stats.json"), format!("{{\"first_level_images_whose_recovery_wrote\": {rep}}}")).unwrap();
     println!("cases={total}");
     0
 }
